@@ -81,8 +81,17 @@ impl<P: Problem> Component<P> for Block<P> {
     }
 
     fn execute(&self, problem: &P, state: &mut State<P>) -> ExecResult<()> {
+        #[cfg(mahf_verif)]
+        let mut verif_index = 0usize;
         for component in &self.0 {
+            #[cfg(mahf_verif)]
+            crate::verif::observe(state, crate::verif::Phase::Before, component.verif_name(), verif_index);
             component.execute(problem, state)?;
+            #[cfg(mahf_verif)]
+            {
+                crate::verif::observe(state, crate::verif::Phase::After, component.verif_name(), verif_index);
+                verif_index += 1;
+            }
         }
         Ok(())
     }
@@ -197,8 +206,12 @@ impl<P: Problem> Component<P> for Loop<P> {
     fn execute(&self, problem: &P, state: &mut State<P>) -> ExecResult<()> {
         self.condition.init(problem, state)?;
         while self.condition.evaluate(problem, state)? {
+            #[cfg(mahf_verif)]
+            crate::verif::observe(state, crate::verif::Phase::Before, "mahf::verif::LoopPass", 0);
             self.body.execute(problem, state)?;
             *state.try_borrow_value_mut::<common::Iterations>()? += 1;
+            #[cfg(mahf_verif)]
+            crate::verif::observe(state, crate::verif::Phase::After, "mahf::verif::LoopPass", 0);
         }
         Ok(())
     }
